@@ -44,7 +44,7 @@ func init() {
 		NotCovered: "serial equivalence of the answers themselves; liveness beyond lock re-entrancy; races in caller code.",
 	}
 	Properties["C13"] = PropertySpec{
-		Rules:       []string{"R-LOCK", "R-PANIC", "R-RESET", "R-SCRATCH", "R-OPTS", "R-INIT", "R-SYNCED", "R-GLOBAL"},
+		Rules:       []string{"R-LOCK", "R-PANIC", "R-RESET", "R-SCRATCH", "R-OPTS", "R-INIT", "R-SYNCED", "R-PARTITION", "R-GLOBAL"},
 		Explanation: "History independence, reduced to which state a call can leave behind and whether a sequence can hang or hit an unimplemented path.",
 		NotCovered:  "equality of answers across histories on concrete data.",
 	}
